@@ -22,12 +22,21 @@ REQUIRED = ["oracle.rebuild-same", "oracle.inproc-chunked-same", "oracle.multipr
             "observed.runs-with-2+-worker-pids", "observed.arrival-orders", "oracle.multiproc-after-earlier-run",
             "observed.cases-with-experiment-seed-0", "observed.cases-with-materialized-environments",
             "observed.cases-with-midstream-generator-learner-listed-once", "observed.cases-with-an-environment-without-interactions",
-            "observed.cases-with-a-listed-learner-that-is-a-logging-policy-elsewhere"]
+            "observed.cases-with-a-listed-learner-that-is-a-logging-policy-elsewhere",
+            "observed.cases-with-one-environment-and-two-evaluators-per-learner"]
 ASSUMPTIONS = ["only deterministic picklable components; timing columns excluded", "processes <= 6",
                "seed=None (time seeded) filters are not generated"]
 
-def gen_case(rng, force_seed0=False, force_materialized=False, force_partial_cache=False, force_rnginit=False, force_empty_env=False, force_policy=False):
+def gen_case(rng, force_seed0=False, force_materialized=False, force_partial_cache=False, force_rnginit=False, force_empty_env=False, force_policy=False, force_one_env=False):
     spec = X.gen_spec(rng)
+    if force_one_env:
+        # ONE environment, stateful learners, TWO evaluators (cross product): every learner is paired with a single environment but
+        # evaluated twice; the two evaluations are in one chunk in-process and in different chunks / workers when maxtasksperchunk=1
+        g = spec["groups"][0]; g["filters"] = [f for f in g["filters"] if f[0] in ("chunk", "cache", "shuffle", "take", "sort")]
+        spec["groups"] = [g]; spec.pop("combine", None)
+        spec["lrns"] = [dict(X.gen_learner(rng, i), kind=rng.choice(["stateful-ap", "stateful-pmf", "ucb", "epsilon"])) for i in range(rng.choice([1, 2]))]
+        spec["vals"] = [{"kind": "cb", "tag": "V0", "seed": 1, "nrows": 2}, {"kind": rng.choice(["cb-seed", "rec", "cb-record"]), "tag": "V1", "seed": rng.randrange(1, 20), "nrows": 4}]
+        spec["triples"] = "cross"
     if force_policy:
         # a learner listed once (trained in place by an in-process run, pickled pristine for a worker) that is also the logging policy
         # of a later triple's environment, which is evaluated off-policy
@@ -58,7 +67,7 @@ def gen_case(rng, force_seed0=False, force_materialized=False, force_partial_cac
                 spec["triples"] = [[r2.random(), r2.randrange(n), r2.randrange(len(spec["vals"]))] for _ in range(r2.randint(1, 4))] + [[r2.random(), n, 0]]
         else:
             spec["triples"].insert(r2.randrange(len(spec["triples"]) + 1), [r2.random(), n, r2.randrange(len(spec["vals"]))])
-    if force_empty_env or (spec["triples"] == "cross" and r2.random() < .15):
+    if force_empty_env or (not force_one_env and spec["triples"] == "cross" and r2.random() < .15):
         # an environment without interactions (a strict take of more than there is) behind a chunk() prefix, evaluated -- among others --
         # by an evaluator that records a row for every evaluation it is asked for
         spec["groups"].append({"kind": "lambda", "n": 6, "seed": 3, "tag": f"g{len(spec['groups']) + 5}",
@@ -71,6 +80,7 @@ def gen_case(rng, force_seed0=False, force_materialized=False, force_partial_cac
         p = rng.choice([1, 2, 2, 3, 4, 6]); mc = rng.choice([0, 0, 1, 2, 3]); mt = rng.choice([0, 0, 1, 2, 3, 5])
         if p == 1 and mc == 0: mc = rng.choice([1, 2])
         cfgs.append([p, mc, mt])
+    if force_one_env: cfgs[1:3] = [[2, 0, 1], [1, 1, 1]]
     return {"spec": spec, "cfgs": cfgs}
 
 def _once_rnginit(spec):
@@ -151,7 +161,8 @@ def run_shard(ctx):
     try:
         for i in range(ctx.n):
             case = gen_case(ctx.rng, force_seed0=(i == 0), force_materialized=(i == 1), force_partial_cache=(i == 2), force_rnginit=(i == 1 and ctx.shard % 2 == 1), force_empty_env=(i == 0 and ctx.shard % 2 == 0),
-                            force_policy=(i == 2 and ctx.shard % 2 == 0))
+                            force_policy=(i == 2 and ctx.shard % 2 == 0), force_one_env=(i == 1 and ctx.shard % 4 == 0))
+            if i == 1 and ctx.shard % 4 == 0: ctx.count("observed.cases-with-one-environment-and-two-evaluators-per-learner")
             if case["spec"].get("policy_sharing"): ctx.count("observed.cases-with-a-listed-learner-that-is-a-logging-policy-elsewhere")
             if any(f[0] == "take_strict" for g in case["spec"]["groups"] for f in g["filters"]): ctx.count("observed.cases-with-an-environment-without-interactions")
             if _once_rnginit(case["spec"]): ctx.count("observed.cases-with-midstream-generator-learner-listed-once")
